@@ -66,15 +66,27 @@ THEOREMS = [
 ]
 
 RULE = ("scripts of write / write_char / flush / out! / outln! over all 12 integer types (every type's MIN, MAX, 0, +-1, "
-        "10^k-1, 10^k, 10^k+1, 9..9, random values of every bit length), ASCII strings (lengths 0, 1, BUF-1, BUF, BUF+1, "
-        "2*BUF+3 via `fill`), Vec (empty, nested, natively typed), tuples of arity 2..8; buffer fill levels BUF-45..BUF "
-        "when a multi-byte piece starts; sinks accepting 1..k bytes per write call with Interrupted results injected; "
-        "each case runs on the debug (flush per write) and the release (buffered) executor and is compared with the model "
-        "instantiated with the hook's BUF_SIZE and the profile's flush_each_write; non-trivial = at least two pieces and a "
-        "non-empty output")
-TRUSTED = ["executor harness/crates/c09 (drives rlib_io::Writer through write/write_char/flush/out!/outln!/drop into a "
-           "scripted sink, prints the received bytes; compares with to_string and reads back through rlib_io::Reader)",
-           "checks/c09.py (case generator, run-length encoding of long byte strings, Coq term printer)",
+        "10^k-1, 10^k, 10^k+1, 9..9, random values of every bit length), ASCII strings as String AND as &str (lengths 0, 1, "
+        "BUF-1, BUF, BUF+1, 2*BUF+3, .. 3*BUF+1: constant (`fill`/`rfill`), made of several runs with borders on and next "
+        "to the multiples of BUF (`runs`/`rruns`: position and order of every chunk visible), of one 2-/3-/4-byte "
+        "character cut by the chunk border (`fillu`)), Vec (empty, nested, natively typed, the end of the buffer inside a "
+        "Vec, one Vec larger than the buffer in the thorough tier), tuples of arity 2..8; buffer fill levels BUF-45..BUF "
+        "when a multi-byte piece starts, and for 14 kinds of piece the levels at which it (or its first component, or its "
+        "'-') fits exactly / by one byte more or less; writers moved to another address with data pending (`mv`); TWO "
+        "writers alive with interleaved operations, each observed once (the other one compared with to_string inside "
+        "the executor); scripts run in a child process through the real make_io! (stdout lock, drop by leaving the "
+        "function); sinks accepting 1..k bytes per write call with Interrupted results injected; read back through "
+        "Reader element by element (integers, string tokens), with read_vec / the tuple impls, and with read_lines; "
+        "each case runs on the debug (flush per write; the executor verifies after every operation that nothing is left "
+        "pending) and the release (buffered) executor and is compared with the model instantiated with the hook's "
+        "BUF_SIZE and the profile's flush_each_write; all cases are additionally run on a buffered build with overflow "
+        "checks and must be answered as by the release build; non-trivial = at least two pieces and a non-empty output")
+TRUSTED = ["executor harness/crates/c09 (drives rlib_io::Writer through write/write_char/flush/out!/outln!/make_io!/drop "
+           "into a scripted sink (a pipe for make_io!), prints the received bytes; compares with to_string, reads back "
+           "through rlib_io::Reader; for the second writer of a two-writer case and for the debug flush-per-write only "
+           "its own verdict (F!other / F!dbgflush) reaches Coq)",
+           "checks/c09.py (case generator, run-length / period encoding of long byte strings, Coq term printer; `mv` is "
+           "not an event of the model)",
            "std::io::Write::write_all (oracle: delivers its argument whatever partial writes/Interrupted the sink answers)",
            "<[u8]>::chunks, unsigned_abs of std (modelled by their documented contracts)"]
 ASSUMPTIONS = ["usize/isize are 64-bit (the target the executor is built for)",
@@ -107,8 +119,12 @@ def val_tokens(v):
         return [v[1], str(v[2])]
     if k in ("s", "r"):
         return [k, hx(v[1])]
-    if k == "fill":
-        return ["fill", str(v[1]), str(v[2])]
+    if k in ("fill", "rfill"):
+        return [k, str(v[1]), str(v[2])]
+    if k in ("runs", "rruns"):
+        return [k, str(len(v[1]))] + [str(x) for r in v[1] for x in r]
+    if k in ("fillu", "rfillu"):
+        return [k, str(v[1]), str(v[2]), str(v[3]), str(v[4])]
     if k in ("v", "t"):
         out = [k, str(len(v[1]))]
         for x in v[1]:
@@ -116,25 +132,57 @@ def val_tokens(v):
         return out
     if k == "nv":
         return ["nv", v[1], str(len(v[2]))] + [str(x) for x in v[2]]
+    if k == "nvrep":
+        return ["nvrep", v[1], str(v[2]), str(v[3])]
     raise ValueError(v)
+
+
+def op_tokens(o):
+    k = o[0]
+    if k == "w":
+        return ["w"] + val_tokens(o[1])
+    if k == "c":
+        return ["c", str(o[1])]
+    if k in ("f", "mv"):
+        return [k]
+    toks = [k, str(len(o[1]))]
+    for x in o[1]:
+        toks += val_tokens(x)
+    return toks
+
+
+def interleave(c):
+    """dual cases: (tag, op) in execution order; c["ops"] belongs to writer d["which"]"""
+    d = c["dual"]
+    mine, other = d["which"], 1 - d["which"]
+    rest = {mine: list(c["ops"]), other: list(d["other"])}
+    out = []
+    for b in d["sched"]:
+        w = b if rest[b] else 1 - b
+        if rest[w]:
+            out.append((w, rest[w].pop(0)))
+    for w in (mine, other):
+        out += [(w, o) for o in rest[w]]
+    return out
 
 
 def harness_line(c):
     if c.get("query"):
         return "Q"
-    toks = ["S"] + [str(x) for x in c["sink"]] + [str(c.get("rt", 0))]
+    if c.get("makeio"):
+        toks = ["M", str(c.get("rt", 0))]
+        for o in c["ops"]:
+            toks += op_tokens(o)
+        return " ".join(toks)
+    head = [str(x) for x in c["sink"]] + [str(c.get("rt", 0))]
+    if c.get("dual"):
+        toks = ["D"] + head + [str(c["dual"]["which"]), str(c["dual"]["dropfirst"])]
+        for w, o in interleave(c):
+            toks += [str(w)] + op_tokens(o)
+        return " ".join(toks)
+    toks = ["S"] + head
     for o in c["ops"]:
-        k = o[0]
-        if k == "w":
-            toks += ["w"] + val_tokens(o[1])
-        elif k == "c":
-            toks += ["c", str(o[1])]
-        elif k == "f":
-            toks += ["f"]
-        else:
-            toks += [k, str(len(o[1]))]
-            for x in o[1]:
-                toks += val_tokens(x)
+        toks += op_tokens(o)
     return " ".join(toks)
 
 
@@ -153,7 +201,7 @@ def z(n):
     return "(%d)" % n if n < 0 else "%d" % n
 
 
-def words(b):
+def wordlist(b):
     """a leading 1 followed by up to seven bytes per 63-bit word"""
     out = []
     for i in range(0, len(b), 7):
@@ -161,40 +209,67 @@ def words(b):
         for x in b[i:i + 7]:
             v = v * 256 + x
         out.append(str(v))
-    return "Lit [%s]%%uint63" % ";".join(out)
+    return "[%s]%%uint63" % ";".join(out)
 
 
-def segs(b):
-    """run-length encode long runs: list of Coq seg terms"""
-    out, lit, i, n = [], [], 0, len(b)
-    while i < n:
-        j = i
-        while j < n and b[j] == b[i]:
-            j += 1
-        if j - i >= 24:
-            if lit:
-                out.append(words(lit))
-                lit = []
-            out.append("Run %d %d%%N" % (b[i], j - i))
+def words(b):
+    return "Lit " + wordlist(b)
+
+
+def extent(b, i, p):
+    """largest L with b[i:i+L] of period p (b[j] == b[j+p] inside); assumes b[i:i+p] == b[i+p:i+2p]"""
+    n = len(b)
+    lo, hi = p, n - i - p          # m = L - p: b[i:i+m] == b[i+p:i+p+m]
+    step = 4 * p
+    while lo < hi:                 # gallop, then bisect
+        m = min(hi, lo + step)
+        if b[i + lo:i + m] == b[i + p + lo:i + p + m]:
+            lo = m
+            step *= 2
         else:
-            lit += list(b[i:j])
-        i = j
+            hi = m - 1
+            break
+    while lo < hi:
+        m = (lo + hi + 1) // 2
+        if b[i + lo:i + m] == b[i + p + lo:i + p + m]:
+            lo = m
+        else:
+            hi = m - 1
+    return lo + p
+
+
+def encode(b, per=()):
+    """lossless compact form of a byte string: long runs as Run, long periodic stretches (periods listed in `per`,
+    hints of the generator) as Cyc, the rest as words.  Returns (Coq list of seg, number of literal bytes)."""
+    b = bytes(b)
+    out, lit, nlit, i, n = [], [], 0, 0, len(b)
+    ps = (1,) + tuple(q for q in per if q > 1)
+    while i < n:
+        hit = None
+        for q in ps:
+            if i + 2 * q <= n and b[i:i + q] == b[i + q:i + 2 * q]:
+                k = extent(b, i, q) // q
+                if k * q >= 24 and k >= 3:
+                    hit = (q, k)
+                    break
+        if hit is None:
+            lit.append(b[i])
+            nlit += 1
+            i += 1
+            continue
+        if lit:
+            out.append(words(lit))
+            lit = []
+        q, k = hit
+        out.append("Run %d %d%%N" % (b[i], k) if q == 1 else "Cyc %s %d" % (wordlist(b[i:i + q]), k))
+        i += q * k
     if lit:
         out.append(words(lit))
-    return "[" + "; ".join(out) + "]"
+    return "[" + "; ".join(out) + "]", nlit
 
 
-def irregular(b):
-    """number of bytes outside long runs"""
-    n, i = 0, 0
-    while i < len(b):
-        j = i
-        while j < len(b) and b[j] == b[i]:
-            j += 1
-        if j - i < 24:
-            n += j - i
-        i = j
-    return n
+def segs(b, per=()):
+    return encode(b, per)[0]
 
 
 def zv(n):
@@ -208,18 +283,28 @@ def zv(n):
     return "(zv %s [%s]%%uint63)" % ("true" if n < 0 else "false", ";".join(reversed(limbs)))
 
 
+def int_term(t, n):
+    return "VInt %s %s" % (COQ_TY[t], zv(n))
+
+
 def val_term(v):
     k = v[0]
     if k == "i":
-        return "VInt %s %s" % (COQ_TY[v[1]], zv(v[2]))
+        return int_term(v[1], v[2])
     if k in ("s", "r"):
         return "str %s" % segs(v[1].encode("utf-8"))
-    if k == "fill":
+    if k in ("fill", "rfill"):
         return "str [Run %d %d%%N]" % (v[1], v[2])
+    if k in ("runs", "rruns"):
+        return "str [%s]" % "; ".join("Run %d %d%%N" % (c, n) for c, n in v[1])
+    if k in ("fillu", "rfillu"):
+        return "str [Run %d %d%%N; Cyc %s %d]" % (v[3], v[4], wordlist(chr(v[1]).encode("utf-8")), v[2])
     if k in ("v", "t"):
         return "%s [%s]" % ("VVec" if k == "v" else "VTup", "; ".join(val_term(x) for x in v[1]))
     if k == "nv":
-        return "VVec [%s]" % "; ".join("VInt %s %s" % (COQ_TY[v[1]], zv(x)) for x in v[2])
+        return "VVec [%s]" % "; ".join(int_term(v[1], x) for x in v[2])
+    if k == "nvrep":
+        return "vrep %d (%s)" % (v[3], int_term(v[1], v[2]))
     raise ValueError(v)
 
 
@@ -232,6 +317,11 @@ def op_term(o):
     if k == "f":
         return "OFlush"
     return "%s [%s]" % ("OOut" if k == "o" else "OOutln", "; ".join(val_term(x) for x in o[1]))
+
+
+def ops_term(c):
+    # `mv` (the writer is moved to another address) is not an event of the model: a move cannot change anything
+    return "; ".join(op_term(x) for x in c["ops"] if x[0] != "mv")
 
 
 def parse_obs(obs):
@@ -248,17 +338,22 @@ def parse_obs(obs):
 
 def coq_term(c, obs, profile):
     r = parse_obs(obs)
+    dbg = "true" if profile == "debug" else "false"
     if r is None:
         o = "Panic"
     else:
         data, fl, same, rb = r
-        if irregular(data) > 40000:
-            return "(Case %d %s [%s] (TooLong %d))" % (BUF[0], "true" if profile == "debug" else "false",
-                                                       "; ".join(op_term(x) for x in c["ops"]), len(data))
-        o = "(Ret (expand %s) [%s] %s %s)" % (segs(data), ";".join(z(x) for x in fl), "true" if same else "false",
-                                     "None" if rb is None else "(Some %s)" % ("true" if rb else "false"))
-    return "(Case %d %s [%s] %s)" % (BUF[0], "true" if profile == "debug" else "false",
-                                      "; ".join(op_term(x) for x in c["ops"]), o)
+        enc, nlit = encode(data, c.get("per", ()))
+        if nlit > 40000:
+            if same and rb is not False:
+                return "(Case %d %s [%s] (TooLong %d))" % (BUF[0], dbg, ops_term(c), len(data))
+            # too irregular to embed AND the executor's own comparison with to_string failed: the verdict must not
+            # be lost; the head of the received bytes goes into the case (the model cannot agree with a proper prefix
+            # of what arrived unless it disagrees with the implementation)
+            enc = encode(data[:4096])[0]
+        o = "(Ret (expand %s) [%s] %s %s)" % (enc, ";".join(z(x) for x in fl), "true" if same else "false",
+                                              "None" if rb is None else "(Some %s)" % ("true" if rb else "false"))
+    return "(Case %d %s [%s] %s)" % (BUF[0], dbg, ops_term(c), o)
 
 
 # ----------------------------------------------------------------------------- evidence helpers
@@ -267,6 +362,8 @@ def pieces(c):
     for o in c["ops"]:
         if o[0] in ("w", "c"):
             n += 1
+        elif o[0] in ("f", "mv"):
+            pass
         elif o[0] in ("o", "ol"):
             n += len(o[1]) + 1
     return n
@@ -397,6 +494,19 @@ def rand_script(rng, n, ints_only=False):
     return ops
 
 
+def fill(rng, c, n):
+    """a string of n copies of one ASCII byte: String or &str (the two impls are separate copies of one loop)"""
+    return [rng.choice(["fill", "rfill"]), c, n]
+
+
+def with_moves(rng, ops, chance=4):
+    """now and then the writer is moved while it holds data"""
+    if ops and rng.chance(1, chance):
+        ops = list(ops)
+        ops.insert(rng.range(1, len(ops)), ["mv"])
+    return ops
+
+
 def piece_near_boundary(rng):
     """an operation whose first piece is several bytes long"""
     k = rng.below(10)
@@ -406,7 +516,7 @@ def piece_near_boundary(rng):
         v = rng.choice([lo, hi, rand_int(rng, t), rand_int(rng, t)])
         return ["w", ["i", t, v]]
     if k == 4:
-        return ["w", ["s", "".join(rng.choice(ALPHA[:36]) for _ in range(rng.range(2, 46)))]]
+        return ["w", [rng.choice(["s", "r"]), "".join(rng.choice(ALPHA[:36]) for _ in range(rng.range(2, 46)))]]
     if k == 5:
         t = rng.choice(TYS)
         return ["w", ["nv", t, [rand_int(rng, t) for _ in range(rng.range(2, 6))]]]
@@ -425,17 +535,19 @@ def boundary_case(rng, d):
     level = B - d
     how = rng.below(4)
     if how == 0:
-        ops.append(["w", ["fill", 97 + rng.below(26), level]])
+        ops.append(["w", fill(rng, 97 + rng.below(26), level)])
     elif how == 1:
         a = rng.range(1, max(1, level - 1))
-        ops += [["w", ["fill", 97 + rng.below(26), a]], ["w", ["fill", 65 + rng.below(26), level - a]]]
+        ops += [["w", fill(rng, 97 + rng.below(26), a)], ["w", fill(rng, 65 + rng.below(26), level - a)]]
     elif how == 2:
         # a flushed prefix first: the sink is not empty when the boundary is met
-        ops += [["w", ["i", "i32", -7]], ["f"], ["w", ["fill", 97 + rng.below(26), level]]]
+        ops += [["w", ["i", "i32", -7]], ["f"], ["w", fill(rng, 97 + rng.below(26), level)]]
     else:
         tail = rand_script(rng, rng.range(1, 3))
         ops += [o for o in tail if o[0] != "f"]
-        ops.append(["w", ["fill", 97 + rng.below(26), max(0, level - 40)]])
+        ops.append(["w", fill(rng, 97 + rng.below(26), max(0, level - 40))])
+    if rng.chance(1, 3):
+        ops.append(["mv"])     # a writer with an almost full buffer changes its address
     for _ in range(rng.range(1, 4)):
         ops.append(piece_near_boundary(rng))
         if rng.chance(1, 4):
@@ -445,12 +557,8 @@ def boundary_case(rng, d):
     return {"kind": "boundary", "sink": rand_sink(rng), "rt": 0, "ops": ops}
 
 
-def string_case(rng, n, pre, follow=None):
+def follow_ops(rng, follow):
     ops = []
-    if pre:
-        ops.append(["w", ["s", "x" * pre]])
-    ops.append(["w", ["fill", 97 + rng.below(26), n]])
-    follow = rng.below(5) if follow is None else follow
     if follow == 0:
         ops.append(["w", ["i", "u8", 255]])
     elif follow == 1:
@@ -463,7 +571,72 @@ def string_case(rng, n, pre, follow=None):
     if rng.chance(1, 2):
         ops.append(["f"])
         ops.append(["c", 10])
+    return ops
+
+
+def string_case(rng, n, pre, follow=None, ref=None):
+    ops = []
+    if pre:
+        ops.append(["w", ["s", "x" * pre]])
+    v = fill(rng, 97 + rng.below(26), n)
+    if ref is not None:
+        v[0] = "rfill" if ref else "fill"
+    ops.append(["w", v])
+    ops += follow_ops(rng, rng.below(5) if follow is None else follow)
     return {"kind": "bigstring", "sink": rand_sink(rng), "rt": 0, "ops": ops}
+
+
+def run_list(rng, n, shape):
+    """a list of (byte, count) with total n: ONE string whose content says where each byte belongs.
+    shape 0: run borders exactly on the multiples of BUF (a chunk resent or dropped changes a run's length and a
+             shift by one byte at a chunk border is visible), the last run ends with a different byte;
+    shape 1: a few long runs with borders near, not on, the multiples of BUF;
+    shape 2: many runs of 24..90 (100..500 in strings of several buffers) bytes, bytes cycling through the alphabet: no two BUF-sized windows are equal"""
+    B = BUF[0]
+    runs, left, c = [], n, rng.below(26)
+    def nxt():
+        nonlocal c
+        c = (c + 1 + rng.below(24)) % 26
+        return 97 + c
+    if shape == 0:
+        while left > 0:
+            k = min(left, B)
+            if k > 2:
+                runs += [[nxt(), 1], [nxt(), k - 2], [nxt(), 1]]
+            else:
+                runs.append([nxt(), k])
+            left -= k
+    elif shape == 1:
+        while left > 0:
+            k = min(left, B + rng.choice([-7, -1, 1, 5, 9]))
+            runs.append([nxt(), k])
+            left -= k
+    else:
+        while left > 0:
+            k = min(left, rng.range(24, 90) if n < B + 2 else rng.range(100, 500))
+            runs.append([nxt(), k])
+            left -= k
+    return runs
+
+
+def runs_case(rng, n, pre, shape, ref):
+    ops = []
+    if pre:
+        ops.append(["w", ["s", "x" * pre]])
+    ops.append(["w", ["rruns" if ref else "runs", run_list(rng, n, shape)]])
+    ops += follow_ops(rng, rng.below(5))
+    return {"kind": "runstring", "sink": rand_sink(rng), "rt": 0, "ops": ops}
+
+
+def unicode_case(rng, cp, nbytes, pk, ref):
+    """a long string of one multi-byte character after pk ASCII bytes: the character at the chunk border is cut
+    (as_bytes().chunks() may do that, str slicing may not).  Outside the property's quantifier (ASCII): compared with
+    the model only."""
+    w = len(chr(cp).encode("utf-8"))
+    k = (nbytes - pk + w - 1) // w
+    ops = [["w", ["rfillu" if ref else "fillu", cp, k, 120, pk]]]
+    ops += follow_ops(rng, rng.choice([1, 2, 4]))
+    return {"kind": "bigstring-utf8", "sink": rand_sink(rng), "rt": 0, "ops": ops, "per": [w]}
 
 
 def exact_fill_case(rng, d, how):
@@ -474,7 +647,7 @@ def exact_fill_case(rng, d, how):
     ops = []
     if how == 1:
         ops += [["w", ["i", "u16", 7]], ["f"]]
-    ops.append(["w", ["fill", 97 + rng.below(26), B - d]])
+    ops.append(["w", fill(rng, 97 + rng.below(26), B - d)])
     for _ in range(d + 2):
         if rng.chance(1, 2):
             ops.append(["c", 33 + rng.below(90)])
@@ -482,6 +655,140 @@ def exact_fill_case(rng, d, how):
             ops.append(["w", ["i", "u8", rng.below(10)]])
     ops.append(["w", ["i", "i32", -12345]])
     return {"kind": "boundary", "sink": rand_sink(rng), "rt": 0, "ops": ops}
+
+
+def rendered_len(v):
+    k = v[0]
+    if k == "i":
+        return len(str(v[2]))
+    if k in ("s", "r"):
+        return len(v[1].encode("utf-8"))
+    if k == "nv":
+        return sum(len(str(x)) for x in v[2]) + max(0, len(v[2]) - 1)
+    if k in ("v", "t"):
+        return sum(rendered_len(x) for x in v[1]) + max(0, len(v[1]) - 1)
+    raise ValueError(v)
+
+
+def fit_cases(rng):
+    """a multi-byte piece that fits the free space exactly / lacks one byte / leaves one byte; '-' on the last and
+    the last but one free byte; for composite values also the FIRST component fitting exactly"""
+    B = BUF[0]
+    i64min, i8min = ["i", "i64", lo_hi("i64")[0]], ["i", "i8", -128]
+    word = lambda n: "".join(ALPHA[(7 * j + n) % 36] for j in range(n))
+    things = [("w", i64min, None), ("w", ["i", "u128", lo_hi("u128")[1]], None), ("w", i8min, None),
+              ("w", ["i", "u8", 7], None), ("w", ["i", "isize", -1], None)]
+    for n in (2, 17, 45):
+        things += [("w", ["s", word(n)], None), ("w", ["r", word(n)], None)]
+    nv = ["nv", "i32", [-2147483648, 77, 2147483647]]
+    tup = ["t", [["i", "i16", -32768], ["r", "ab"]]]
+    things += [("w", nv, 11), ("w", tup, 6), ("ol", [["i", "u64", lo_hi("u64")[1]], ["i", "i8", -5]], 20)]
+    out = []
+    for kind, v, first in things:
+        total = sum(rendered_len(x) for x in v) + len(v) - 1 + 1 if kind == "ol" else rendered_len(v)
+        levels = {B - total + dl: dl == 0 for dl in (-1, 1, 0)}
+        if first is not None:
+            levels.update({B - first + dl: dl == 0 for dl in (-1, 1, 0)})
+        if kind == "w" and v[0] == "i" and v[2] < 0:
+            levels.update({B - 2: False, B - 1: True})
+        for lvl in sorted(levels):
+            r = rng.fork("fit%s/%d" % (val_tokens(v) if kind == "w" else "ol", lvl))
+            how = r.below(3)
+            ops = []
+            if how == 1:
+                ops += [["w", ["i", "u16", 7]], ["f"]]
+            if how == 2:
+                a = r.range(1, lvl - 1)
+                ops += [["w", fill(r, 97 + r.below(26), a)], ["w", fill(r, 65 + r.below(26), lvl - a)]]
+            else:
+                ops.append(["w", fill(r, 97 + r.below(26), lvl)])
+            ops.append(["w", v] if kind == "w" else ["ol", v])
+            ops += [["c", 32], ["w", ["i", "i32", -12345]]]
+            out.append(({"kind": "fit", "sink": rand_sink(r), "rt": 0, "ops": ops}, levels[lvl]))
+    return out
+
+
+def bigvec_case(rng, which, nmax):
+    """a Vec whose rendering meets the end of the buffer in its middle (which = 0) / is larger than the whole buffer.
+    (The model appends to a list: a case costs Coq about |pieces| * BUF steps, hence the small numbers; Vecs of 10^5
+    elements go through the executor's own comparison, `X .. vec`.)"""
+    B = BUF[0]
+    if which == 0:
+        n = rng.range(nmax // 2, nmax)
+        t = rng.choice(["u8", "i8", "u16", "i64"])
+        vals = [rand_int(rng, t) if rng.chance(1, 8) else rng.range(0, 99) for _ in range(n)]
+        # about 2.9 bytes per element: the buffer is full somewhere in the first third of the Vec
+        ops = [["w", fill(rng, 97 + rng.below(26), B - rng.range(3, min(n, 3 * nmax // 4) + 3))], ["w", ["nv", t, vals]], ["c", 10]]
+        return {"kind": "bigvec", "sink": rand_sink(rng), "rt": 0, "ops": ops}
+    # equal values, rendering > BUF: 39+1, 40+1 bytes per element
+    t, v, n = [("u128", lo_hi("u128")[1], 1700), ("i128", lo_hi("i128")[0], 1650)][which - 1]
+    n += rng.below(40)
+    pre = rng.choice([0, 1, 17])
+    ops = ([["w", ["s", "y" * pre]]] if pre else []) + [["w", ["nvrep", t, v, n]], ["c", 10]]
+    return {"kind": "bigvec", "sink": rand_sink(rng), "rt": 3 if pre == 0 else 0, "ops": ops, "per": [len(str(v)) + 1]}
+
+
+def dual_cases(rng, big):
+    """two writers alive at the same time, their operations interleaved; each of the two is the observed one once"""
+    a = with_moves(rng, rand_script(rng, rng.range(1, 8)), 2)
+    b = with_moves(rng, rand_script(rng, rng.range(1, 8)), 2)
+    if big:
+        a = boundary_case(rng, rng.range(0, 45))["ops"]
+        if big == 2:
+            b = boundary_case(rng, rng.range(0, 45))["ops"]
+    sched = [rng.below(2) for _ in range(len(a) + len(b))]
+    sink, dropfirst = rand_sink(rng), rng.below(2)
+    return [{"kind": "dual", "sink": sink, "rt": 0, "ops": mine,
+             "dual": {"which": w, "other": other, "sched": sched, "dropfirst": dropfirst}}
+            for w, mine, other in ((0, a, b), (1, b, a))]
+
+
+def token(rng):
+    return "".join(rng.choice(ALPHA[:36] + ".,-=_/#$%") for _ in range(rng.range(1, 9)))
+
+
+def token_val(rng, depth=0):
+    """values a reader can take apart again: integers, whitespace-free strings, Vec<int>, tuples"""
+    k = rng.below(10)
+    t = rng.choice(TYS)
+    if k < 3 or depth >= 2:
+        return ["i", t, rand_int(rng, t)]
+    if k < 5:
+        return [rng.choice(["s", "r"]), token(rng)]
+    if k < 7:
+        return ["nv", t, [rand_int(rng, t) for _ in range(rng.choice([0, 1, 2, 3, 7]))]]
+    if k < 9:      # a tuple of one integer type: read back through the tuple impl of the same arity
+        return ["t", [["i", t, rand_int(rng, t)] for _ in range(rng.range(2, 8))]]
+    return ["t", [token_val(rng, depth + 1) for _ in range(rng.range(2, 8))]]
+
+
+def token_script(rng):
+    ops = []
+    for _ in range(rng.range(1, 8)):
+        k = rng.below(8)
+        if k < 5:
+            ops.append(["w", token_val(rng)])
+            ops.append(["c", rng.choice([32, 32, 10, 9, 13])])
+        elif k < 6:
+            ops.append(["o", [token_val(rng, 1) for _ in range(rng.range(1, 5))]])
+            ops.append(["c", rng.choice([32, 10])])
+        else:
+            ops.append(["ol", [token_val(rng, 1) for _ in range(rng.range(0, 5))]])
+        if rng.chance(1, 6):
+            ops.append(["f"])
+    return ops
+
+
+def makeio_case(rng, i):
+    if i % 8 == 7:      # more than the writer's buffer and more than a pipe holds
+        ops = [["w", fill(rng, 97 + rng.below(26), BUF[0] + rng.range(1, 5000))], ["c", 10]] + token_script(rng)
+        rt = 0
+    elif i % 2:
+        ops, rt = token_script(rng), rng.choice([1, 3])
+    else:
+        ops, rt = rand_script(rng, rng.range(1, 10)), 2
+    ops = with_moves(rng, [o for o in ops if o[0] != "f"])
+    return {"kind": "makeio", "makeio": True, "sink": [1000000, 0, 0], "rt": rt, "ops": ops}
 
 
 def generate(rng, tier):
@@ -512,16 +819,22 @@ def generate(rng, tier):
     # non-ASCII: outside the property (write_char truncates), still compared with the model
     cases.append({"kind": "non-ascii", "sink": [2, 100, 9], "rt": 0,
                   "ops": [["w", ["s", "héllo 世界"]], ["c", 233], ["c", 0x4e16], ["c", 255], ["c", 256]]})
-    # 2. random scripts
+    # 2. random scripts; a quarter of them is read back line by line (read_lines), now and then the writer is moved
     n_rand = 600 if quick else 5000
     for i in range(n_rand):
         r = rng.fork("s%d" % i)
-        cases.append({"kind": "script", "sink": rand_sink(r), "rt": 0, "ops": rand_script(r, r.range(1, 10))})
+        cases.append({"kind": "script", "sink": rand_sink(r), "rt": 2 if i % 4 == 3 else 0,
+                      "ops": with_moves(r, rand_script(r, r.range(1, 10)), 6)})
     # 3. integer-only scripts, read back through Reader
     n_int = 350 if quick else 3000
     for i in range(n_int):
         r = rng.fork("i%d" % i)
         cases.append({"kind": "ints-readback", "sink": rand_sink(r), "rt": 1, "ops": rand_script(r, r.range(1, 8), True)})
+    # 3b. integers, string tokens, Vec<int>, tuples: read back element by element (rt 1) or with read_vec / the tuple
+    #     impls (rt 3)
+    for i in range(100 if quick else 1500):
+        r = rng.fork("tok%d" % i)
+        cases.append({"kind": "tokens-readback", "sink": rand_sink(r), "rt": 1 if i % 2 else 3, "ops": token_script(r)})
     # 4. the 64 KiB boundary: fill levels BUF-45 .. BUF when a multi-byte piece starts
     ds = list(range(0, 46))
     reps = 1 if quick else 4
@@ -529,21 +842,55 @@ def generate(rng, tier):
         for d in ds:
             r = rng.fork("b%d/%d" % (rep, d))
             cases.append(boundary_case(r, d))
-    # 5. long strings: chunking by BUF
+    # 4a. pieces that fit exactly / by one byte more or less
+    fits = fit_cases(rng.fork("fit"))
+    # quick: the exact fits and '-' on the last byte for half of the pieces, a sixth of the neighbours
+    cases += [c for j, (c, exact) in enumerate(fits) if not quick or (exact and j % 2 == 0) or j % 12 == 1]
+    # 5. long strings: chunking by BUF; String and &str
     lens = [B - 1, B, B + 1] if quick else [B - 1, B, B + 1, 2 * B - 1, 2 * B, 2 * B + 3, 3 * B + 1]
     for n in lens:
-        for pre in ([0, 3] if quick else [0, 1, 3, 45]):
-            cases.append(string_case(rng.fork("str%d/%d" % (n, pre)), n, pre))
+        for j, pre in enumerate([0, 3] if quick else [0, 1, 3, 45]):
+            cases.append(string_case(rng.fork("str%d/%d" % (n, pre)), n, pre, ref=(j + n) % 2))
     # exact multiples of BUF followed by every kind of next piece (a full buffer met by a 1-byte piece)
     for n in ([B, 2 * B] if quick else [B, 2 * B, 3 * B]):
         for follow in ([1, 2] if quick and n > B else range(5)):
-            cases.append(string_case(rng.fork("strx%d/%d" % (n, follow)), n, 0, follow))
+            cases.append(string_case(rng.fork("strx%d/%d" % (n, follow)), n, 0, follow, ref=follow % 2))
+    # 5b. long strings with structure (several runs in ONE string): order and position of every chunk is visible
+    if quick:
+        plan = [(B - 1, 0, 2, 1), (B, 0, 0, 1), (B + 1, 1, 1, 0), (2 * B + 3, 0, 0, 0), (2 * B + 3, 3, 2, 1), (3 * B + 1, 0, 1, 1)]
+    else:
+        plan = [(n, pre, shape, (n + pre + shape) % 2) for n in lens for pre in (0, 1, 45) for shape in (0, 1, 2)]
+        plan += [(n, 0, shape, (n + shape + 1) % 2) for n in lens for shape in (0, 1, 2)]
+    for n, pre, shape, ref in plan:
+        cases.append(runs_case(rng.fork("runs%d/%d/%d/%d" % (n, pre, shape, ref)), n, pre, shape, ref))
+    # 5c. long strings of a multi-byte character, one of them cut by the chunk border
+    if quick:
+        plan = [(233, B + 1, 1, 1), (0x4e16, 2 * B + 1, 0, 0)]
+    else:
+        plan = [(cp, nb, pk, (pk + k) % 2) for cp in (233, 0x4e16, 0x1f600) for k, nb in enumerate((B + 1, 2 * B + 1, 3 * B + 5))
+                for pk in (0, 1)]
+    for cp, nb, pk, ref in plan:
+        cases.append(unicode_case(rng.fork("u%d/%d/%d" % (cp, nb, pk)), cp, nb, pk, ref))
     # 4b. the last free bytes taken one at a time
     for d in ([0, 1, 2] if quick else range(0, 6)):
         for how in ((d % 2,) if quick else (0, 1)):
             cases.append(exact_fill_case(rng.fork("ef%d/%d" % (d, how)), d, how))
     if quick:
-        cases.append(string_case(rng.fork("str2b3"), 2 * B + 3, 1))
+        cases.append(string_case(rng.fork("str2b3"), 2 * B + 3, 1, ref=0))
+        cases.append(string_case(rng.fork("str2b3r"), 2 * B + 3, 0, ref=1))
+    # 6. Vec: the end of the buffer in the middle of a Vec; (thorough) a Vec larger than the buffer
+    for j in range(2 if quick else 12):
+        cases.append(bigvec_case(rng.fork("bv%d" % j), 0, 80 if quick else 300))
+    if not quick:
+        cases.append(bigvec_case(rng.fork("bvrep"), 1 + rng.below(2), 0))
+    # 7. two writers alive at the same time (each observed once), writers that are moved
+    for j in range(40 if quick else 400):
+        cases += dual_cases(rng.fork("dual%d" % j), 0)
+    for j in range(2 if quick else 24):
+        cases += dual_cases(rng.fork("dualb%d" % j), 1 + j % 2)
+    # 8. the real make_io! in a child process: stdout lock, drop at the end of the function
+    for j in range(16 if quick else 160):
+        cases.append(makeio_case(rng.fork("mio%d" % j), j))
     rng.shuffle(cases)   # spread the expensive cases over the batch files
     return cases
 
@@ -560,10 +907,33 @@ def shrink_val(v):
     elif k in ("s", "r"):
         if v[1]:
             out += [[k, v[1][:len(v[1]) // 2]], [k, v[1][1:]]]
-    elif k == "fill":
+    elif k in ("fill", "rfill"):
         for w in {v[2] // 2, v[2] - 1, v[2] - 16}:
             if 0 <= w < v[2]:
-                out.append(["fill", v[1], w])
+                out.append([k, v[1], w])
+    elif k in ("runs", "rruns"):
+        rs = v[1]
+        if len(rs) > 3:
+            out += [[k, rs[:len(rs) // 2]], [k, rs[len(rs) // 2:]]]
+        for i in range(min(len(rs), 12)):
+            out.append([k, rs[:i] + rs[i + 1:]])
+            if rs[i][1] > 1:
+                out.append([k, rs[:i] + [[rs[i][0], rs[i][1] // 2]] + rs[i + 1:]])
+                out.append([k, rs[:i] + [[rs[i][0], rs[i][1] - 1]] + rs[i + 1:]])
+        if len(rs) == 1:
+            out.append(["rfill" if k == "rruns" else "fill", rs[0][0], rs[0][1]])
+    elif k in ("fillu", "rfillu"):
+        for w in {v[2] // 2, v[2] - 1}:
+            if 0 <= w < v[2]:
+                out.append([k, v[1], w, v[3], v[4]])
+        if v[4]:
+            out.append([k, v[1], v[2], v[3], v[4] - 1])
+    elif k == "nvrep":
+        for w in {v[3] // 2, v[3] - 1}:
+            if 0 <= w < v[3]:
+                out.append([k, v[1], v[2], w])
+        if v[3] <= 8:
+            out.append(["nv", v[1], [v[2]] * v[3]])
     elif k in ("v", "t"):
         for i in range(len(v[1])):
             if k == "v" or len(v[1]) > 2:
@@ -597,6 +967,26 @@ def shrink(c):
         out.append(dict(c, ops=ops[:i] + ops[i + 1:]))
     if c["sink"] != [1000000, 0, 0]:
         out.append(dict(c, sink=[1000000, 0, 0]))
+    if c.get("dual"):
+        d = c["dual"]
+        oth = d["other"]
+        if not oth:
+            plain = {k: v for k, v in c.items() if k != "dual"}
+            out.insert(0, plain)
+        if len(oth) > 3:
+            out.append(dict(c, dual=dict(d, other=oth[:len(oth) // 2])))
+            out.append(dict(c, dual=dict(d, other=oth[len(oth) // 2:])))
+        for i in range(len(oth)):
+            out.append(dict(c, dual=dict(d, other=oth[:i] + oth[i + 1:])))
+        for i, o in enumerate(oth):
+            if o[0] == "w":
+                for w in shrink_val(o[1])[:3]:
+                    out.append(dict(c, dual=dict(d, other=oth[:i] + [["w", w]] + oth[i + 1:])))
+    if c.get("makeio"):
+        plain = {k: v for k, v in c.items() if k != "makeio"}
+        out.insert(0, plain)     # the same script without the child process
+    if c.get("rt", 0):
+        out.append(dict(c, rt=0))
     for i, o in enumerate(ops):
         if o[0] == "w":
             for w in shrink_val(o[1]):
@@ -616,7 +1006,9 @@ def shrink(c):
 def extra(ctx, known):
     """Consequences of the theorems checked directly on the implementation at a scale Coq does not run:
     every 8/16-bit value and many random wider ones through ONE writer each (the release build crosses the
-    64 KiB boundary at arbitrary offsets with irregular data), compared with to_string, read back with Reader."""
+    64 KiB boundary at arbitrary offsets with irregular data), compared with to_string, read back with Reader;
+    the same as ONE Vec / Vec<Vec> / Vec<tuple> of 70 000+ elements; everything also on a buffered build with
+    overflow checks (profile relchk), which has to answer every generated case exactly as the release build."""
     thorough = ctx.tier == "thorough"
     lines = []
     for t in ("i8", "u8", "i16", "u16"):
@@ -626,10 +1018,20 @@ def extra(ctx, known):
     for t in ("i32", "u32", "i64", "u64", "i128", "u128", "isize", "usize"):
         for k, (mc, intr) in enumerate(sinks):
             lines.append("X %s rand %d %d %d %d" % (t, ctx.seed * 1000 + k, n, mc, intr))
+    # the same kind of values as ONE Vec / Vec<Vec> / Vec<tuple> (a rendering of several buffers in one write call,
+    # more elements than a u16 counts), read back with read_vec
+    nv = 150000 if thorough else 70000
+    for k, t in enumerate(TYS if thorough else ("u8", "i16", "u32", "i64", "i128", "usize")):
+        mc, intr = sinks[k % len(sinks)]
+        lines.append("X %s vec %d %d %d %d" % (t, ctx.seed * 1000 + 77 + k, nv, mc, intr))
     viol, total_vals, total_bytes = [], 0, 0
-    for prof in PROFILES:
-        import _driver as D
-        outs = D.run_impl(ctx.bins[prof], lines)
+    import _driver as D
+    bins = dict(ctx.bins)
+    third = build_checked_release(ctx)
+    if third:
+        bins["release+overflow-checks"] = third
+    for prof, binp in bins.items():
+        outs = D.run_impl(binp, lines)
         for l, o in zip(lines, outs):
             tk = o.split()
             if len(tk) >= 2 and tk[0] == "X" and tk[1] == "ok":
@@ -641,10 +1043,41 @@ def extra(ctx, known):
                                                  "integers differ from the standard renderings, or Reader does not return "
                                                  "the values (replay with the executor line below)",
                                          "profile": prof, "executor_line": l, "executor_answer": o}})
-    return {"coverage": {"impl_search": {"values_written_and_read_back": total_vals, "bytes_delivered": total_bytes,
-                                         "executor_lines": len(lines) * len(PROFILES),
-                                         "note": "not a proof: to_string and Reader used as oracles on the Rust side"}},
-            "violations": viol[:3]}
+    cov = {"values_written_and_read_back": total_vals, "bytes_delivered": total_bytes,
+           "executor_lines": len(lines) * len(bins),
+           "note": "not a proof: to_string and Reader used as oracles on the Rust side"}
+    # third build flavour: buffered (no flush per write) WITH overflow checks.  Arithmetic on the fill level that
+    # wraps harmlessly in the release build and is never reached with a non-empty buffer in the debug build panics
+    # here.  Every generated case must be answered exactly as by the release executor (whose answers Coq checked).
+    if third:
+        cases = generate(D.Rng(ctx.seed).fork(ID), ctx.tier)
+        cl = [harness_line(c) for c in cases]
+        a, b = D.run_impl(ctx.bins["release"], cl), D.run_impl(third, cl)
+        diff = [(c, x, y) for c, x, y in zip(cases, a, b) if x != y]
+        cov["checked_release_cases"] = len(cases)
+        for c, x, y in diff[:1]:
+            viol.append({"name": "release-with-overflow-checks",
+                         "payload": {"what": "a buffered build with overflow checks (profile relchk of the executor crate) "
+                                             "answers differently from the release build (P = panic)",
+                                     "case": c, "executor_line": harness_line(c)[:2000], "release_answer": x[:300],
+                                     "checked_release_answer": y[:300], "cases_differing": len(diff)}})
+    else:
+        cov["checked_release_cases"] = "profile relchk could not be built"
+    return {"coverage": {"impl_search": cov}, "violations": viol[:3]}
+
+
+def build_checked_release(ctx):
+    """cargo build --profile relchk of the executor, next to the release binary the driver built"""
+    import os
+    import _driver as D
+    rel = ctx.bins["release"]
+    tdir = os.path.dirname(os.path.dirname(rel))
+    hdir = D.HARNESS if ctx.repo == "/repo" else os.path.join(ctx.work, "harness")
+    env = dict(os.environ, CARGO_NET_OFFLINE="true", CARGO_TARGET_DIR=tdir)
+    rc, out = D.run(["cargo", "build", "--offline", "-q", "--profile", "relchk", "--manifest-path",
+                     os.path.join(hdir, "crates", CRATE, "Cargo.toml")], cwd=hdir, timeout=3600, env=env)
+    binp = os.path.join(tdir, "relchk", CRATE)
+    return binp if rc == 0 and os.path.exists(binp) else None
 
 
 MANIFEST = {
@@ -660,8 +1093,11 @@ MANIFEST = {
             "canonical decimal numeral, unsigned_abs exact, the digit loop stays inside the BASE_10_LEN buffer), "
             "c09_base10len (the base_10_len! loop yields the digit count of MAX for all six widths), c09_round_trip (the "
             "text of any integer vector parses back to the values with a reader that accumulates digits as Reader does). "
-            "The model is tied to the code on every run: scripted writes through the public API into sinks that accept "
-            "1..k bytes per call and return Interrupted, on a debug and a release executor; Coq checks model = received "
+            "The model is tied to the code on every run: scripted writes through the public API (String and &str of "
+            "up to 3*BUF_SIZE+1 bytes with visible structure, pieces fitting the free space exactly, Vecs crossing the "
+            "buffer end, moved writers, two interleaved writers, the real make_io! in a child process) into sinks that "
+            "accept 1..k bytes per call and return Interrupted, on a debug and a release executor (a third, buffered "
+            "build with overflow checks must answer identically); Coq checks model = received "
             "bytes and received bytes = independent rendering (Z.to_int) for every case. The second check is also a "
             "theorem: c09_model_check_spec_check (for every case whose reported BUF_SIZE is >= 39 and whose two "
             "executor-side verdicts -- same bytes as to_string, Reader read the integers back -- are positive, "
